@@ -29,5 +29,5 @@ PROPS["C14"] = dict(
              7: "a failed message or a block boundary changed classes, tokens, supplies or the owners' lists"},
     trusted_base=["the SDK's x/nft keeper (class / NFT / owner / owner-index / supply stores) is modelled in Nft/Model.v, not verified; "
                   "its agreement with the model is observed after every step (Collection, Supply, NFTsOfOwner, Denoms queries and the raw owner record)"],
-    assumptions=["fewer than 2^64 tokens are ever minted into one class (the supply counter's increment is modelled without wrap-around)"],
+    assumptions=["histories of fewer than 2^64 steps (hypothesis of supply_counter_no_wrap and model_passes_check: the x/nft supply counter is a uint64, modelled with its wrap-around)"],
 )
